@@ -35,7 +35,7 @@ def rec_checksum(digest, s):
 def resolve_shard(arg):
     maxn, shard, nshards = arg
     p = subprocess.run([os.path.join(vp.BIN, "vpmon"), "resolve", str(maxn), str(shard), str(nshards)],
-                       stdout=subprocess.PIPE, stderr=subprocess.PIPE, text=True)
+                       stdout=subprocess.PIPE, stderr=subprocess.PIPE, text=True, env=dict(os.environ, **vp.hostile_env()))
     if p.returncode != 0:
         return {"error": p.stderr[-2000:]}
     return json.loads(p.stdout)
